@@ -379,6 +379,7 @@ var batchCounter int64
 var exploreDeadline time.Time
 
 type replayer struct {
+	patient bool // the next batch is a patient re-run of one vector
 	work   string
 	bin    map[string]string // target name -> test binary
 	ov     map[string][]byte
@@ -495,9 +496,9 @@ func (r *replayer) runBatch(tp targetPkg, vecs []replayVector, timeout time.Dura
 	cmd := exec.Command(r.bin[tp.name], "-test.run", "^TestVerifReplay$", "-test.timeout", timeout.String())
 	cmd.Dir = tp.dir
 	cmd.Env = append(goEnv(), "VERIF_REPLAY_IN="+in, "VERIF_REPLAY_OUT="+out)
-	if timeout > 10*time.Minute {
+	if r.patient {
 		// a patient re-run of a single vector: the per-vector watchdog is raised with the process limit
-		cmd.Env = append(cmd.Env, "VERIF_REPLAY_VECTIMEOUT="+(timeout-30*time.Second).String())
+		cmd.Env = append(cmd.Env, "VERIF_REPLAY_VECTIMEOUT="+(timeout-20*time.Second).String())
 	}
 	cout, err := cmd.CombinedOutput()
 	ob, rerr := os.ReadFile(out)
@@ -1001,9 +1002,11 @@ func runCheck(mode string, args []string) {
 						patientRuns++
 						// the engine predicts a normal end and the native run hit the 25 s watchdog: before calling it
 						// a mismatch, run the vector alone with a patient limit (a loaded machine must not break a check)
-						if o2, _, err2 := rp.runBatch(targets[tn], []replayVector{p.vec}, 11*time.Minute); err2 == nil && len(o2) == 1 {
+						rp.patient = true
+						if o2, _, err2 := rp.runBatch(targets[tn], []replayVector{p.vec}, 4*time.Minute); err2 == nil && len(o2) == 1 {
 							o = &o2[0]
 						}
+						rp.patient = false
 					}
 					ok, note := compareWitness(p.res, o)
 					if ok {
